@@ -1,6 +1,7 @@
 package engine
 
 import (
+	"time"
 	"github.com/nyaruka/gocommon/urns"
 	"github.com/nyaruka/goflow/assets"
 	"github.com/nyaruka/goflow/assets/static"
@@ -138,5 +139,61 @@ func VerifC02_SessionMemory() {
 		step(restart, timeout, names[k])
 	}
 	zzverif.Assert(a.Status() == flows.SessionStatusCompleted, "the session did not complete")
+	zzverif.Cover("resumed-equal")
+}
+
+// VerifC02_DatetimeField: a datetime the engine holds in memory and the same
+// datetime read back from the session JSON must behave alike.  In an
+// environment with a timezone that has daylight saving time (America/New_York)
+// or without (UTC, Africa/Kigali), a set_contact_field action stores a date
+// and time in a datetime field the day before, on, or long before the change
+// of clocks; after the wait a message renders the field, the field plus one
+// day and plus 36 hours (datetime_add), and formats it: the session kept in
+// memory and the one read back at the wait send the same message.
+// cover: zone-with-dst, zone-without-dst, day-before-the-clock-change, resumed-equal
+func VerifC02_DatetimeField() {
+	zone := []string{"America/New_York", "UTC", "Africa/Kigali"}[zzverif.Choice("timezone", 3)]
+	tz, err := time.LoadLocation(zone)
+	zzverif.Assert(err == nil, "setup: zone not loaded")
+	dst := zone == "America/New_York"
+	if dst {
+		zzverif.Cover("zone-with-dst")
+	} else {
+		zzverif.Cover("zone-without-dst")
+	}
+	when := []string{"2024-03-09 10:00", "2024-03-10 10:00", "2024-01-15 23:30"}[zzverif.Choice("appointment", 3)]
+	zzverif.Known("C02-restored-datetime-zone", dst && when == "2024-03-09 10:00")
+	if when == "2024-03-09 10:00" {
+		zzverif.Cover("day-before-the-clock-change")
+	}
+	env := envs.NewBuilder().WithTimezone(tz).Build()
+	sa := verifNewAssets()
+	sa.fields = flows.NewFieldAssets([]assets.Field{&verifFieldAsset{"appointment", assets.FieldTypeDatetime}})
+	sa.groups = flows.VerifGroupAssetsOf(env, sa.fields)
+	render := `@fields.appointment|@(datetime_add(fields.appointment, 1, "D"))|@(datetime_add(fields.appointment, 36, "h"))|@(format_datetime(fields.appointment, "YYYY-MM-DD tt:mm"))`
+	cats := []flows.Category{routers.NewCategory("c0", "All", verifExitUUID(9, 0, 0))}
+	router := routers.NewSwitch(waits.NewMsgWait(nil, nil), "", cats, "@input.text", nil, "c0")
+	n0 := definition.NewNode(verifNodeUUID(0, 0), []flows.Action{actions.NewSetContactField("a0", assets.NewFieldReference("appointment", "Appointment"), when)}, router,
+		[]flows.Exit{definition.NewExit(verifExitUUID(9, 0, 0), verifNodeUUID(0, 1))})
+	n1 := definition.NewNode(verifNodeUUID(0, 1), []flows.Action{actions.NewSendMsg("m1", render, nil, nil, false)}, nil, []flows.Exit{definition.NewExit(verifExitUUID(9, 0, 1), "")})
+	f, ferr := definition.NewFlow(verifFlowUUID(0), "F0", "eng", flows.FlowTypeMessaging, 1, 10, definition.NewLocalization(), []flows.Node{n0, n1}, nil, nil)
+	zzverif.Assert(ferr == nil, "setup: flow did not validate")
+	sa.add(f)
+	eng := verifEngine(10, 10)
+	zzverif.ResetEnv()
+	sess, _, err := eng.NewSession(sa, triggers.NewBuilder(env, assets.NewFlowReference(verifFlowUUID(0), "F0"), verifContact(sa)).Manual().Build())
+	zzverif.Assert(err == nil && sess.Status() == flows.SessionStatusWaiting, "setup: session not waiting")
+	m := verifMarshal(sess)
+	restored, err := eng.ReadSession(sa, []byte(m), assets.PanicOnMissing)
+	zzverif.Assert(err == nil, "a marshalled waiting session could not be read back")
+	zzverif.Assert(verifMarshal(restored) == m, "a session read back from its JSON marshals to different JSON")
+	zzverif.ResetEnv()
+	sp1, err1 := sess.Resume(verifResumeText("hi"))
+	zzverif.ResetEnv()
+	sp2, err2 := restored.Resume(verifResumeText("hi"))
+	zzverif.Assert(err1 == nil && err2 == nil, "resume failed")
+	zzverif.Note("kept in memory: ", verifC02Texts(sp1), " restored: ", verifC02Texts(sp2))
+	zzverif.Assert(verifEventsJSON(sp1) == verifEventsJSON(sp2), "resuming the restored session produced different events or segments")
+	zzverif.Assert(verifMarshal(sess) == verifMarshal(restored), "resuming the restored session resulted in different session JSON")
 	zzverif.Cover("resumed-equal")
 }
